@@ -16,6 +16,7 @@ import StVerif.Lemmas.Split
 import StVerif.Lemmas.Utf8Split
 import StVerif.Lemmas.KernelBridge
 import StVerif.Lemmas.KernelLoopsCompare
+import StVerif.Lemmas.KernelLoopsFind
 
 namespace StVerif.Props.C09
 open StVerif StVerif.Split StVerif.Search StVerif.Lemmas.Split
@@ -331,5 +332,14 @@ theorem translated_compare_ci_is_model (l r : List Nat) (hl : ∀ b ∈ l, b < 2
     (hn : n ≤ l.length) (hn' : n ≤ r.length) (hn64 : n < 2 ^ 64) (fuel : Nat) (hf : n < fuel) :
     StVerif.Generated.Kernels.compare_ci l r fuel 0 0 n = .ok (StVerif.Compare.compareCi3 (l.take n) (r.take n)) :=
   KernelBridge.compare_ci_eq l r hl hr n hn hn' hn64 fuel hf
+
+/-- `find_ci(haystack, size, ch)` as translated from include/st_string_priv.h on every run (a pointer result is the index
+    found, or the null pointer) is the model's case-insensitive scan for one character: the first index whose folded byte
+    equals the folded needle; it never reads outside the haystack -/
+theorem translated_find_ci_is_model (mem : List Nat) (hb : ∀ b ∈ mem, b < 256) (c : Nat) (hc : c < 256) (fuel : Nat)
+    (hf : mem.length < fuel) :
+    StVerif.Generated.Kernels.find_ci mem fuel 0 mem.length (StVerif.Cxx.toChar c)
+      = .ok (StVerif.Search.scanChar .insensitive c mem 0) :=
+  KernelBridge.find_ci_eq mem hb c hc fuel hf
 
 end StVerif.Props.C09
